@@ -333,7 +333,7 @@ def check_c04(tier, seed):
             if r["nerr"] > 0:
                 v.report("C04 conv valid-sentence-flagged msg=%s" % common.clip(r["errs"][0][2], 70),
                          {"terms": m["terms"], "text": m["text"], "errs": r["errs"][:3]}, replay)
-    if n_rej < 100 or n_acc < 5:
+    if not v.violations and (n_rej < 100 or n_acc < 5):
         raise ToolError("vacuous converse run: %d rejected, %d strict-accepted mutants" % (n_rej, n_acc))
     samples = [{"sentence": " ".join(sentences[i]["terms"]), "rendered": sentences[i]["text"][:160]} for i in (3, len(exh) // 2, len(exh) + 5)]
     samples.append({"mutant": " ".join(muts[0]["terms"]), "op": muts[0]["op"], "liberal_accepts": 0 in lib_acc})
